@@ -234,7 +234,97 @@ class Inliner:
     def _inline_in_function(self, rel: str, cls, fn) -> bool:
         if fn.name in self.new and self.new[fn.name][3] is fn:
             pass  # helpers may themselves call newer helpers: allowed (depth bounded by the outer loop)
-        return self._inline_in_body(rel, cls, fn, fn.body)
+        changed = self._inline_expression_helpers(rel, cls, fn)
+        return self._inline_in_body(rel, cls, fn, fn.body) or changed
+
+    def _inline_expression_helpers(self, rel, cls, fn) -> bool:
+        """A helper whose body is a single `return <expr>` is an abbreviation of that expression: its calls are replaced by the expression
+        wherever they stand (also in conditionally evaluated positions), when every argument is a name / attribute chain / constant."""
+        inl = self
+        changed = [False]
+
+        def expr_of(call: ast.Call, awaited: bool):
+            r = inl._callee(call, cls, rel)
+            if r is None:
+                return None
+            (hrel, hq, hcls, hnode), recv, decs = r
+            if hnode is fn:
+                return None
+            body = [s_ for s_ in hnode.body if not (isinstance(s_, ast.Expr) and isinstance(s_.value, ast.Constant))]
+            if len(body) != 1 or not isinstance(body[0], ast.Return) or body[0].value is None:
+                return None
+            if isinstance(hnode, ast.AsyncFunctionDef) != awaited:
+                return None
+            params = [a.arg for a in hnode.args.posonlyargs + hnode.args.args]
+            kwonly = [a.arg for a in hnode.args.kwonlyargs]
+            defaults = dict(zip(params[len(params) - len(hnode.args.defaults):], hnode.args.defaults))
+            defaults.update({a: d for a, d in zip(kwonly, hnode.args.kw_defaults) if d is not None})
+            mapping: dict[str, ast.AST] = {}
+            if 'staticmethod' not in decs and hcls is not None:
+                if not params:
+                    return None
+                first = params.pop(0)
+                if 'classmethod' in decs:
+                    mapping[first] = ast.parse({'self': 'self.__class__', 'cls': 'cls'}.get(recv, recv), mode='eval').body
+                elif recv != 'self':
+                    return None
+                else:
+                    mapping[first] = ast.Name('self', ast.Load())
+            if len(call.args) > len(params):
+                return None
+            args = dict(zip(params, call.args))
+            for k_ in call.keywords:
+                if k_.arg in args or k_.arg not in params + kwonly:
+                    return None
+                args[k_.arg] = k_.value
+            for p_ in params + kwonly:
+                if p_ not in args:
+                    if p_ not in defaults:
+                        return None
+                    args[p_] = defaults[p_]
+            e = copy.deepcopy(body[0].value)
+            for p_, a_ in args.items():
+                uses = sum(1 for n_ in ast.walk(e) if isinstance(n_, ast.Name) and n_.id == p_)
+                if not (_simple(a_) or (uses <= 1 and _pure(a_))):
+                    return None
+                mapping[p_] = a_
+            # names the expression binds (comprehension variables, walrus) must not capture names of the arguments
+            bound = {n_.id for n_ in ast.walk(e) if isinstance(n_, ast.Name) and isinstance(n_.ctx, ast.Store)}
+            if any(isinstance(n_, ast.Name) and n_.id in bound for a_ in args.values() for n_ in ast.walk(a_)):
+                return None
+            if any(isinstance(n_, (ast.Lambda, ast.Yield, ast.YieldFrom)) for n_ in ast.walk(e)):
+                return None
+            out = _Subst(mapping, {}).visit(e)
+            inl._count(hnode)
+            return out
+
+        class T(ast.NodeTransformer):
+            def visit_FunctionDef(self, n):
+                return n if n is not fn else self.generic_visit(n)
+            visit_AsyncFunctionDef = visit_FunctionDef
+
+            def visit_Lambda(self, n):
+                return n
+
+            def visit_Await(self, n: ast.Await):
+                if isinstance(n.value, ast.Call):
+                    e = expr_of(n.value, True)
+                    if e is not None:
+                        changed[0] = True
+                        return ast.copy_location(self.visit(e) if False else e, n)
+                return self.generic_visit(n)
+
+            def visit_Call(self, n: ast.Call):
+                self.generic_visit(n)
+                e = expr_of(n, False)
+                if e is not None:
+                    changed[0] = True
+                    return ast.copy_location(e, n)
+                return n
+        T().visit(fn)
+        if changed[0]:
+            ast.fix_missing_locations(fn)
+        return changed[0]
 
     def _inline_in_body(self, rel, cls, fn, body: list) -> bool:
         changed = False
@@ -258,7 +348,7 @@ class Inliner:
             if site is None:
                 i += 1
                 continue
-            new_stmts = self._expand(st, site, fn)
+            new_stmts = self._expand(st, site, fn, body[i + 1] if i + 1 < len(body) else None)
             if new_stmts is None:
                 i += 1
                 continue
@@ -346,7 +436,7 @@ class Inliner:
             return None
         return rec(e, None)
 
-    def _expand(self, st: ast.stmt, site, fn) -> Optional[list[ast.stmt]]:
+    def _expand(self, st: ast.stmt, site, fn, nxt: Optional[ast.stmt] = None) -> Optional[list[ast.stmt]]:
         call, awaited_node, hnode, hcls, recv, decs, root = site
         k = next(_counter)
         h = copy.deepcopy(hnode)
@@ -383,10 +473,13 @@ class Inliner:
         stores = {n.id for n in ast.walk(h) if isinstance(n, ast.Name) and isinstance(n.ctx, (ast.Store, ast.Del))}
         pre: list[ast.stmt] = []
         rename: dict[str, str] = {}
+        first_stmt = next((s_ for s_ in h.body if not (isinstance(s_, ast.Expr) and isinstance(s_.value, ast.Constant))), None)
         for p in params + kwonly:
             a = args[p]
             if _simple(a) and p not in stores:
                 mapping[p] = a
+            elif p not in stores and _pure(a) and _used_once_in_header(h, first_stmt, p):
+                mapping[p] = a      # `f(xs[:n])` with `for x in xs_param:` as the helper's first statement: evaluated at the same point
             else:
                 nm = p if p not in caller_names else f'{p}__inl{k}'
                 if nm != p:
@@ -428,8 +521,24 @@ class Inliner:
             self._count(hnode)
             return [ast.fix_missing_locations(s) for s in out] or [ast.Pass()]
         needs_value = not (isinstance(st, ast.Expr) and st.value is whole)
-        result_name = f'__inl{k}' if needs_value else None
+        # `X = helper(..)`: the result is written to X directly (X is not read by the arguments, so every X in the body is the
+        # helper's own local, dead after its return)
+        result_name = (own_target or f'__inl{k}') if needs_value else None
         result_expr: Optional[ast.AST] = None
+        if needs_value and own_target and isinstance(nxt, ast.If) and _only_depends_on(nxt.test, own_target):
+            # `X = helper(..); if t(X): <terminating branch>`: a `return <const>` of the helper (anywhere, also inside its loops) that
+            # selects a terminating branch IS that branch
+            for r in _returns_outside_nested(body):
+                if r.value is not None and not isinstance(r.value, ast.Constant):
+                    continue
+                cv = None if r.value is None else r.value.value
+                branch = nxt.body if _eval_test(nxt.test, own_target, cv) else nxt.orelse
+                if not branch or not _terminates(branch) or any(isinstance(n, (ast.Break, ast.Continue)) for b_ in branch for n in ast.walk(b_)):
+                    continue
+                ph = ast.copy_location(ast.Raise(None, None), r)
+                ph._splice = [ast.copy_location(ast.Assign([ast.Name(own_target, ast.Store())], ast.Constant(cv), lineno=r.lineno), r)] + \
+                    [copy.deepcopy(x) for x in branch]     # type: ignore[attr-defined]
+                _replace_stmt(body, r, [ph])
         structured = _structure(body)
         if structured is not None:
             body = structured
@@ -451,7 +560,7 @@ class Inliner:
                         branch = st.body if _eval_test(st.test, whole, None) else st.orelse
                         body.extend(copy.deepcopy(x) for x in branch)
                     self._count(hnode)
-                    return [ast.fix_missing_locations(x) for x in out + body] or [ast.Pass()]
+                    return [ast.fix_missing_locations(x) for x in _splice(out + body)] or [ast.Pass()]
                 if len(tails) == 1 and not falls and _simple(values[0]) and body and body[-1] is tails[0]:
                     body.pop()
                     result_expr = values[0]
@@ -467,7 +576,7 @@ class Inliner:
             else:
                 out += body
             self._count(hnode)
-            return [ast.fix_missing_locations(x) for x in out] or [ast.Pass()]
+            return [ast.fix_missing_locations(x) for x in _splice(out)] or [ast.Pass()]
         # ---- fallback: early returns that cannot be structured -> one-trip loop (marked synthetic)
         tr = _Returns(result_name)
         body2 = []
@@ -490,7 +599,7 @@ class Inliner:
             _replace(st, whole, result_expr)
             out.append(st)
         self._count(hnode)
-        return [ast.fix_missing_locations(s_) for s_ in out] or [ast.Pass()]
+        return [ast.fix_missing_locations(s_) for s_ in _splice(out)] or [ast.Pass()]
 
     def _count(self, hnode):
         self.inlined[hnode.name] = self.inlined.get(hnode.name, 0) + 1
@@ -542,7 +651,17 @@ def _structure(stmts: list) -> Optional[list]:
         st = out[i]
         rest = out[i + 1:]
         if isinstance(st, (ast.For, ast.AsyncFor, ast.While)) and _contains_return(st):
-            return None
+            # search loop: `for ..: .. return v ..; REST`  ==  `for ..: .. R = v; break ..  else: REST` when the loop has no break /
+            # else of its own and no return sits in a nested loop (marked here, rewritten by _tailify)
+            if st.orelse or _own_jumps(st.body, (ast.Break,)) or _returns_in_nested_loops(st.body):
+                return None
+            o = _structure(rest)
+            if o is None:
+                return None
+            st.orelse = o
+            st._ret_loop = True     # type: ignore[attr-defined]
+            out = out[:i + 1]
+            break
         if isinstance(st, ast.If):
             if _contains_return(st) and rest:
                 if _terminates(st.body):
@@ -595,6 +714,63 @@ def _structure(stmts: list) -> Optional[list]:
     return out
 
 
+def _own_jumps(stmts: list, kinds) -> bool:
+    """Does the block contain a break / continue that belongs to the enclosing loop?"""
+    for st in stmts:
+        if isinstance(st, kinds):
+            return True
+        if isinstance(st, FUNC + (ast.ClassDef, ast.For, ast.AsyncFor, ast.While)):
+            if isinstance(st, (ast.For, ast.AsyncFor, ast.While)) and _own_jumps(st.orelse, kinds):
+                return True
+            continue
+        for fld in ('body', 'orelse', 'finalbody'):
+            sub = getattr(st, fld, None)
+            if isinstance(sub, list) and sub and isinstance(sub[0], ast.stmt) and _own_jumps(sub, kinds):
+                return True
+        for h in getattr(st, 'handlers', []) or []:
+            if _own_jumps(h.body, kinds):
+                return True
+        for c in getattr(st, 'cases', []) or []:
+            if _own_jumps(c.body, kinds):
+                return True
+    return False
+
+
+def _returns_in_nested_loops(stmts: list) -> bool:
+    for st in stmts:
+        for n in ast.walk(st):
+            if isinstance(n, (ast.For, ast.AsyncFor, ast.While)) and _contains_return(n):
+                return True
+    return False
+
+
+def _loop_returns(stmts: list, result: Optional[str], tails: list) -> list:
+    """`return v` -> `R = v; break` inside a search loop (no nested loop holds a return: checked by _structure)."""
+    out = []
+    for st in stmts:
+        if isinstance(st, ast.Return):
+            if result is not None:
+                new = ast.copy_location(ast.Assign([ast.Name(result, ast.Store())], st.value or ast.Constant(None), lineno=st.lineno), st)
+                new._tail = True  # type: ignore[attr-defined]
+                tails.append(new)
+                out.append(new)
+            elif st.value is not None and not _simple(st.value):
+                out.append(ast.copy_location(ast.Expr(st.value), st))
+            out.append(ast.copy_location(ast.Break(), st))
+            continue
+        if not isinstance(st, FUNC + (ast.ClassDef,)):
+            for fld in ('body', 'orelse', 'finalbody'):
+                sub = getattr(st, fld, None)
+                if isinstance(sub, list) and sub and isinstance(sub[0], ast.stmt):
+                    setattr(st, fld, _loop_returns(sub, result, tails))
+            for h in getattr(st, 'handlers', []) or []:
+                h.body = _loop_returns(h.body, result, tails)
+            for c in getattr(st, 'cases', []) or []:
+                c.body = _loop_returns(c.body, result, tails)
+        out.append(st)
+    return out
+
+
 def _tailify(stmts: list, result: Optional[str]) -> list:
     """Replace the tail-position returns of a structured block by `R = v` (or by the bare expression / nothing when no value is
     needed); returns the list of replacement statements (Assign nodes, or Pass markers)."""
@@ -624,6 +800,9 @@ def _tailify(stmts: list, result: Optional[str]) -> list:
             tails += _tailify(h.body, result)
     elif isinstance(st, (ast.With, ast.AsyncWith)):
         tails += _tailify(st.body, result)
+    elif getattr(st, '_ret_loop', False):
+        st.body = _loop_returns(st.body, result, tails)
+        tails += _tailify(st.orelse, result)
     return tails
 
 
@@ -641,7 +820,31 @@ def _terminated_by_tails(stmts: list, tails: list) -> bool:
         return _terminated_by_tails(main, tails) and all(_terminated_by_tails(h.body, tails) for h in st.handlers)
     if isinstance(st, (ast.With, ast.AsyncWith)):
         return _terminated_by_tails(st.body, tails)
+    if getattr(st, '_ret_loop', False):
+        if isinstance(st, ast.While) and isinstance(st.test, ast.Constant) and st.test.value:
+            return True
+        return _terminated_by_tails(st.orelse, tails)
     return False
+
+
+def _splice(stmts: list) -> list:
+    """Replace the placeholders left by the next-if threading by the caller's branch."""
+    out = []
+    for st in stmts:
+        if hasattr(st, '_splice'):
+            out.extend(st._splice)
+            continue
+        if getattr(st, '_tail', False) and isinstance(st, ast.Assign) and isinstance(st.value, ast.Name) and isinstance(st.targets[0], ast.Name) and \
+                st.value.id == st.targets[0].id:
+            continue        # `X = X` left by copy propagation
+        for fld in ('body', 'orelse', 'finalbody'):
+            sub = getattr(st, fld, None)
+            if isinstance(sub, list) and sub and isinstance(sub[0], ast.stmt) and not isinstance(st, FUNC + (ast.ClassDef,)):
+                setattr(st, fld, _splice(sub))
+        for h in getattr(st, 'handlers', []) or []:
+            h.body = _splice(h.body)
+        out.append(st)
+    return out
 
 
 def _replace_stmt(stmts: list, old: ast.stmt, new: list) -> bool:
@@ -660,20 +863,45 @@ def _replace_stmt(stmts: list, old: ast.stmt, new: list) -> bool:
     return False
 
 
-def _only_depends_on(test: ast.AST, whole: ast.AST) -> bool:
-    """test is `X`, `not X`, `X is None`, `X is not None`, `X == const` ... with X the inlined call."""
-    if test is whole:
+def _pure(e: ast.AST) -> bool:
+    """Name / attribute / subscript / slice / constant / arithmetic: no call, no await, nothing that binds."""
+    return all(isinstance(n, (ast.Name, ast.Attribute, ast.Subscript, ast.Slice, ast.Constant, ast.BinOp, ast.UnaryOp, ast.operator, ast.unaryop,
+                              ast.expr_context, ast.Tuple)) for n in ast.walk(e))
+
+
+def _used_once_in_header(h, first_stmt, p: str) -> bool:
+    uses = [n for n in ast.walk(h) if isinstance(n, ast.Name) and n.id == p]
+    if len(uses) != 1 or first_stmt is None:
+        return False
+    if isinstance(first_stmt, (ast.For, ast.AsyncFor)):
+        head = [first_stmt.iter]
+    elif isinstance(first_stmt, (ast.If, ast.While)):
+        head = [first_stmt.test] if isinstance(first_stmt, ast.If) else []
+    elif isinstance(first_stmt, (ast.Assign, ast.AnnAssign, ast.AugAssign, ast.Expr, ast.Return)):
+        head = [first_stmt.value] if first_stmt.value is not None else []
+    else:
+        head = []
+    return any(uses[0] is n for x in head for n in ast.walk(x))
+
+
+def _subject(n: ast.AST, whole) -> bool:
+    return n is whole or (isinstance(whole, str) and isinstance(n, ast.Name) and n.id == whole)
+
+
+def _only_depends_on(test: ast.AST, whole) -> bool:
+    """test is `X`, `not X`, `X is None`, `X is not None`, `X == const` ... with X the inlined call (or the name it is assigned to)."""
+    if _subject(test, whole):
         return True
     if isinstance(test, ast.UnaryOp) and isinstance(test.op, ast.Not):
         return _only_depends_on(test.operand, whole)
-    if isinstance(test, ast.Compare) and len(test.ops) == 1 and test.left is whole and isinstance(test.comparators[0], ast.Constant) and \
+    if isinstance(test, ast.Compare) and len(test.ops) == 1 and _subject(test.left, whole) and isinstance(test.comparators[0], ast.Constant) and \
             isinstance(test.ops[0], (ast.Is, ast.IsNot, ast.Eq, ast.NotEq)):
         return True
     return False
 
 
-def _eval_test(test: ast.AST, whole: ast.AST, value) -> bool:
-    if test is whole:
+def _eval_test(test: ast.AST, whole, value) -> bool:
+    if _subject(test, whole):
         return bool(value)
     if isinstance(test, ast.UnaryOp):
         return not _eval_test(test.operand, whole, value)
